@@ -910,6 +910,16 @@ def check(ctx: Ctx) -> None:
     r07_1(ctx)
     r07_2(ctx)
     r07_3(ctx)
+    # R07.3 complement: an emitter result memoised under a key that omits the page's border override
+    from ..effects import memo_key_gaps
+    for fi in ctx.pm.iter_funcs():
+        for node, cont, kl, vl, missing in memo_key_gaps(ctx.pm, fi):
+            bord = [m for m in missing if "border" in m]
+            ctx.instance("R07.3", fi.where(node), f"{fi.short}: memo in {cont}: key {kl}; value depends on {vl}")
+            if bord:
+                ctx.violation("R07.3", fi.short, f"memo {cont} key lacks {','.join(bord)[:80]}", fi.where(node),
+                              f"{fi.short}: an encoded block is cached in {cont} under a key that does not include {bord}: the block encoded for one page (with that page's "
+                              "border override) is reused on pages whose override differs - the closing border of the table is wrong there")
     r07_4(ctx)
     from .tablecore import broadcast_expansion
     broadcast_expansion(ctx, "R07.4")
